@@ -104,6 +104,8 @@ def run_workers(pid, units, tier, seed, nworkers, unit_timeout):
     env["PYTHONPATH"] = common.VERIF + os.pathsep + common.REPO
     env["VERIF_SEED"] = str(seed)
     env["VERIF_TIER"] = tier
+    env.pop("VERIF_NUMBA_PRIVATE", None)
+    env.pop("NUMBA_CACHE_DIR", None)
     for v in ("OMP_NUM_THREADS", "NUMBA_NUM_THREADS", "OPENBLAS_NUM_THREADS", "MKL_NUM_THREADS",
               "BLOSC_NTHREADS"):
         env.setdefault(v, "1")
@@ -127,6 +129,19 @@ def run_workers(pid, units, tier, seed, nworkers, unit_timeout):
 
     n_bc = sum(1 for u in units if u.get("boundscheck"))
     n_plain = len(units) - n_bc
+    # warm phase: one writer per numba mode fills the shared cache (see common.setup_env)
+    warmers = []
+    for bc, n in ((False, n_plain), (True, n_bc)):
+        if n:
+            wlog = open(os.path.join(work, f"warm-{int(bc)}.log"), "w")
+            warmers.append(
+                subprocess.Popen(
+                    [sys.executable, "-m", "vf.worker", pid, work, "900", "1" if bc else "0", "warm"],
+                    env=env, stdout=wlog, stderr=subprocess.STDOUT, cwd=common.VERIF,
+                )
+            )
+    for p in warmers:
+        p.wait()
     w_bc = 0 if not n_bc else max(1, min(n_bc, round(nworkers * n_bc / len(units))))
     w_plain = 0 if not n_plain else max(1, min(n_plain, nworkers - w_bc))
     for wi in range(w_plain):
@@ -194,7 +209,7 @@ def main(argv=None):
     pid = a.pid.upper()
     tier = a.tier if a.tier in ("quick", "thorough") else "quick"
     seed = int(os.environ.get("VERIF_SEED", "0") or 0)
-    common.setup_env()
+    common.setup_env(adhoc_copy=bool(a.replay))
     from vf import bootstrap
 
     bootstrap.ensure_deps()
@@ -204,6 +219,7 @@ def main(argv=None):
         with open(a.replay) as f:
             body = json.load(f)
         if (body.get("case") or {}).get("boundscheck"):
+            os.environ.pop("VERIF_NUMBA_PRIVATE", None)
             common.setup_env(boundscheck=True)
         m = mod_for(pid)
         vs = m.replay(body["case"])
